@@ -201,6 +201,9 @@ class Roots:
             if po and (v[1], v[2]) in po:
                 outer, av = po[(v[1], v[2])]
                 return outer.roots(av, path)
+            gpo = getattr(self.P, "_param_overrides", None)
+            if gpo and v[1] in gpo and v[2] < len(gpo[v[1]]):
+                return self.roots(gpo[v[1]][v[2]], path)        # a thin per-variant handler: its parameter is the dispatcher's argument
             fn = self.P.fn(v[1])
             path = _strip_wrapper(path)
             if fn is not None and fn.kind == "closure" and v[2] == 0 and path and path[0][0] == "f" and isinstance(path[0][1], int):
@@ -325,6 +328,8 @@ class Roots:
             return {"C:%s@%s:bb%d%s" % (cs, v[1], v[2], path_str(_strip_wrapper(path)))}
         if k == "agg":
             p2 = path
+            if p2 and p2[0][0] == "f" and v[1] == "adt" and str(v[2]).endswith("option::Option::None") and not v[3]:
+                return set()          # a field of `None`: the payload of the Some alternative, which this alternative does not have
             if p2 and p2[0][0] == "v" and p2[0][1] in _WRAPPER_VARIANTS and v[1] == "adt":
                 nm = str(v[2])
                 compatible = (nm.endswith("result::Result::Ok") and p2[0][1] in ("Ok", "Continue")) or \
@@ -968,7 +973,7 @@ class ParamAccess:
         return () if self.field is None else (("f", self.field),)
 
     def root(self, suffix=""):
-        return "P:%s#%d%s%s" % (self.fn.path, self.i, "" if self.field is None else "." + str(self.field), suffix)
+        return param_root(self.fn, self.i, ("" if self.field is None else "." + str(self.field)) + suffix)
 
     def some_root(self):
         """root string of the payload of this Option parameter (`x.unwrap_or(..)`, `if let Some(v) = x`)"""
@@ -2043,3 +2048,29 @@ def option_choice_local(P, R, fn, opt_root, some_roots, none_roots, cond_strings
         if len(got) == 2:
             return local
     return None
+
+
+OVERRIDDEN = {}        # thin per-variant handler path -> (Program, argument values of its single call site)  [roles.descend_intermediate]
+
+
+def _parse_suffix(path):
+    out = []
+    for m in re.finditer(r"\.(\w+)|~(\w+)|\[(\d+)\]|\[\*\]", path):
+        if m.group(1) is not None:
+            out.append(("f", int(m.group(1)) if m.group(1).isdigit() else m.group(1)))
+        elif m.group(2) is not None:
+            out.append(("v", m.group(2)))
+        elif m.group(3) is not None:
+            out.append(("i", int(m.group(3))))
+        else:
+            out.append(("ix",))
+    return tuple(out)
+
+
+def param_root(fn, i, path=""):
+    ov = OVERRIDDEN.get(fn.path)
+    if ov is not None and i < len(ov[1]):
+        rs = Roots(ov[0]).roots(ov[1][i], _parse_suffix(path))
+        if len(rs) == 1:
+            return list(rs)[0]
+    return "P:%s#%d%s" % (fn.path, i, path)
